@@ -8,7 +8,8 @@ ID = "C05"
 COQ_DIR = "C05"
 RUN_MOD = "C05.Run"
 MODEL_TARGETS = ["C05/Run.vo"]
-PROOF_TARGETS = ["C05/Lemmas.vo"]
+PROOF_TARGETS = ["C05/Lemmas.vo", "C05/LemmasList.vo", "C05/LemmasMap.vo", "C05/LemmasSeq.vo", "C05/LemmasNest.vo",
+                 "C05/Witness.vo", "C05/LemmasEx.vo"]
 PROPS = ["C05/Props.v"]
 ALLOWED_AXIOMS = []
 IMPL_TIMEOUT = 20.0
@@ -291,7 +292,7 @@ def gen_grammar(rng, force=None):
         if not br:
             semi = True if not dl else semi
         if opt:
-            head = ["WORD"] if rng.random() < 0.5 else []
+            head = ["="] if rng.random() < 0.5 else []     # a keyword in front, so that an absent list is followed by something
     elif top in ("map", "bmap"):
         br = top == "map"
         keysym = rng.choice(["WORD", "STR", "NUM"])
@@ -300,6 +301,8 @@ def gen_grammar(rng, force=None):
                               "val": "VALUE", "delim": "|", "close": ">" if br else None, "opt": opt,
                               "afd": rng.choice([None, True, False])}])
         topsym = "TOP"
+        if opt:
+            head = ["|"] if rng.random() < 0.5 else []
     else:
         el = [s for s in ("WORD", "NUM", "STR") if rng.random() < 0.6] or ["NUM"]
         el += [c for c in conts if rng.random() < 0.8]
@@ -657,7 +660,7 @@ def gen_cases(rng, tier):
             c = make_case(rng, g, reject=False)
             if c:
                 cases.append(c)
-        if rng.random() < 0.35:
+        if rng.random() < 0.6:
             c = make_case(rng, g, reject=True)
             if c:
                 cases.append(c)
@@ -765,6 +768,9 @@ def impl_run(case):
     p, tm = r[1]
     out["ctor"] = ["ok"]
     out["prods"] = [pr for name, sp in g["prods"] if name in tm for pr in _gen_prods(tm[name])]
+    for name, sp in g["prods"]:
+        if sp["t"] == "seq" and tm[name].element_symbol_name.startswith(name):
+            out["sfx_element"] = tm[name].element_symbol_name[len(name):]
     text = case["text"]
     out["raw"] = _guard(lambda: raw_obs(p.parse(text, do_cleanup=False)))
     out["clean"] = _guard(lambda: clean_obs(p.parse(text), llparser.TElement))
@@ -822,14 +828,16 @@ def cspec(sp):
     return f"(PSeq {csyms(sp['syms'])})"
 
 
-def crt(t):
+def crt(t, ren=None):
+    """ren: renaming of the element helper symbols of the de-templated grammar (SEQxELEMENT -> SEQ__ELEMENT)"""
     k = t[0]
+    name = ren.get(t[1], t[1]) if ren else t[1]
     if k == 0:
-        return f"(RTok {csym(t[1])} {SX.cstr(t[2])})"
+        return f"(RTok {csym(name)} {SX.cstr(t[2])})"
     if k == 1:
-        return f"(RNull {csym(t[1])})"
-    ch = SX.clist(crt(c) for c in t[2]) if t[2] else "(@nil rt)"
-    return f"({'RNode' if k == 2 else 'RSeq'} {csym(t[1])} {ch})"
+        return f"(RNull {csym(name)})"
+    ch = SX.clist(crt(c, ren) for c in t[2]) if t[2] else "(@nil rt)"
+    return f"({'RNode' if k == 2 else 'RSeq'} {csym(name)} {ch})"
 
 
 def coq_case(case, obs):
@@ -840,7 +848,8 @@ def coq_case(case, obs):
     raw = obs.get("raw", ["err"])
     raw2 = obs.get("raw2")
     craw = f"(Some {crt(raw[1])})" if raw[0] == "ok" else "None"
-    craw2 = f"(Some {crt(raw2[1])})" if raw2 and raw2[0] == "ok" else "None"
+    ren = {n + "xELEMENT": n + obs.get("sfx_element", "__ELEMENT") for n, sp in g["prods"] if sp["t"] == "seq"}
+    craw2 = f"(Some {crt(raw2[1], ren)})" if raw2 and raw2[0] == "ok" else "None"
     return f"CParse {gs} {csyms(g['keep'])} {csym(g['start'])} {craw} {craw2}"
 
 
@@ -914,7 +923,7 @@ def expected_full(case, obs):
         fl = []
         if raw2 and raw2[0] == "ok":
             fl = [SX.ok(sx_raw(raw[1]))]
-    return [0, sx_prods(obs["prods"]), cl, fl]
+    return [0, sx_prods(obs["prods"]), cl, fl, 1]
 
 
 # ------------------------------------------------------------------ oracle (the statement, independently of the model)
